@@ -14,7 +14,9 @@
    The contract (the spec_wf functions) is what the raft core guarantees (C19) and what
    LogReader asks for:
    - saved entries are contiguous, start above the marker and at most at last+1,
-     terms never decrease along the log (snapshot terms included);
+     terms never decrease along the log (snapshot terms included); entries that overwrite
+     a suffix carry a term at least as new as every entry they truncate (the property's
+     "overwrites of a suffix with entries of a newer term"; Raft's Log Matching);
    - a snapshot carried by an update (received from the leader, the log restarts
      there) is not behind the log: index >= last; it moves the marker;
    - RemoveEntriesTo idx: 1 <= idx <= last, moves the marker to idx;
@@ -126,7 +128,9 @@ Definition upd_ents_wf (n : rnode) (es : list entry) : bool :=
   | e :: _ =>
     let i0 := e_index e in
     (n_marker n <? i0) && (i0 <=? n_last n + 1) && (i0 + nlen es <? max_index) &&
-    ents_okb i0 (N.max 1 (if i0 =? n_marker n + 1 then n_mterm n else term_at (n_ents n) (i0 - 1))) es
+    ents_okb i0 (N.max (N.max 1 (if i0 =? n_marker n + 1 then n_mterm n else term_at (n_ents n) (i0 - 1)))
+                       (* an overwrite carries a newer term than everything it truncates *)
+                       (if i0 <=? n_last n then n_last_term n else 0)) es
   end.
 
 Definition upd_ents_step (n : rnode) (es : list entry) : rnode :=
